@@ -141,6 +141,8 @@ OBS = {
     "colcounts": (lambda x, a: x.col_counts().tolist(), lambda r, a: [sum(1 for q in r if len(q) > j) for j in range(max(len(q) for q in r))]),
     "getcol": (lambda x, a: x.get_column_values(a).tolist(), lambda r, a: [q[a] for q in r if len(q) > a]),
     "nonzero": (lambda x, a: [q.tolist() for q in x.nonzero()], lambda r, a: [[i for i, q in enumerate(r) for v in q if v], [j for q in r for j, v in enumerate(q) if v]]),
+    # the array as the ARGUMENT of equals (the receiver is an equal array built from plain lists): what the argument has not yet done to itself must not matter
+    "equalsarg": (lambda x, a: bool(CTX.lib.RaggedArray([list(q) for q in a[0]], dtype=np.dtype(a[1])).equals(x)) if len(a[0]) else True, lambda r, a: True),
     "equals": (lambda x, a: bool(x.equals(CTX.lib.RaggedArray(x.tolist(), dtype=np.int64) if len(x) else x)), lambda r, a: True),
     "eqself": (lambda x, a: (x == x).tolist(), lambda r, a: [[True] * len(q) for q in r]),
     "add1": (lambda x, a: (x + np.int64(1)).tolist(), lambda r, a: [[v + 1 for v in q] for q in r]),
@@ -210,7 +212,7 @@ MATERIALISING = {"unimpl", "tolist", "iter", "ravel", "sum1", "npsum1", "sumall"
 READ_OPS = [k for k in OBS]
 NOT_READS = {"badassign"}       # attempted writes (refused, or without effect): part of the programs, never inserted as "extra reads"
 # observations whose result on float data (NaN, inf, -0.0, non-dyadic values) is defined element by element, hence exactly predictable
-FLOAT_OBS = ["reversed", "lenbool", "partnerpurity", "tolist", "iter", "ravel", "meta", "repr", "str", "row", "elem", "rowscol", "pairs", "elem_oob", "rows_oob", "badadd", "badassign", "unimpl", "ell", "empty", "maskidx", "subset", "padded", "nonzero", "add1", "sel", "rslice",
+FLOAT_OBS = ["reversed", "lenbool", "partnerpurity", "tolist", "iter", "ravel", "meta", "repr", "str", "row", "elem", "rowscol", "pairs", "elem_oob", "rows_oob", "badadd", "badassign", "unimpl", "equalsarg", "ell", "empty", "maskidx", "subset", "padded", "nonzero", "add1", "sel", "rslice",
              "getcol", "colcounts", "tonp", "astype", "concatself", "zeros", "diff", "save"]
 FLOAT_READS = [o_ for o_ in FLOAT_OBS if o_ not in NOT_READS] + ["sum1", "npsum1", "sumall", "any1", "eqself", "where", "max1", "sort", "unique", "mean1", "mean0", "all1", "min1"]     # fine as *inserted reads* (no model opinion needed)
 FLOAT_POOL = [0.1, 0.7, 1e17, 1.0, -2.5, 3.25, float("inf"), float("nan"), -0.0, 0.3, 123456.789, -1e-7, float("-inf"), 2.0]
@@ -219,6 +221,8 @@ FLOAT_POOL = [0.1, 0.7, 1e17, 1.0, -2.5, 3.25, float("inf"), float("nan"), -0.0,
 def obs_applicable(name, rows):
     if name in ("cumsum", "equals") and any(isinstance(v, float) for q in rows for v in q):
         return False        # rejected by design for floats / needs an int64 twin
+    if name == "equalsarg":
+        return len(rows) >= 1 and sum(len(q) for q in rows) >= 1 and not any(isinstance(v, float) and v != v for q in rows for v in q)
     n = len(rows)
     lens = [len(r) for r in rows]
     tot = sum(lens)
@@ -292,6 +296,8 @@ def obs_arg(rng, name, rows):
             src = rng.choice([k for k in range(n) if lens[k]])
             part = [src, rng.choice([k for k in range(n) if k != src]), True]
         return [form, rng.random() < 0.5, rng.choice([k for k in (tot + 1, tot - 1, 2 * tot, 2, 0) if k not in (1, tot)]), part]
+    if name == "equalsarg":
+        return [[list(q) for q in rows], _CUR["dtype"]]
     if name == "unimpl":
         return rng.randrange(4)
     if name == "getcol":
